@@ -10,8 +10,10 @@ import (
 	"os"
 	"os/exec"
 	"path/filepath"
+	"runtime"
 	"strconv"
 	"strings"
+	"sync"
 	"sync/atomic"
 	"syscall"
 	"testing"
@@ -27,8 +29,8 @@ import (
 // directory and checks every acknowledged VAA. Repeated for several cycles on one directory.
 
 type c16Cycle struct {
-	N     int    `json:"n"`     // writes attempted in this cycle
-	Kill  string `json:"kill"`  // "self": child kills itself right after ack K; "parent": parent kills when it has read ack K; "delay": parent kills after DelayMs; "none": child exits normally without Close
+	N     int    `json:"n"`    // writes attempted in this cycle
+	Kill  string `json:"kill"` // "self": child kills itself right after ack K; "parent": parent kills when it has read ack K; "delay": parent kills after DelayMs; "none": child exits normally without Close
 	K     int    `json:"k"`
 	Delay int    `json:"delay"` // ms
 	Big   int    `json:"big"`   // payload size class of the K-th write (0 small, 1 ~20 KB, 2 ~100 KB; 3: all writes of the cycle ~100 KB)
@@ -94,6 +96,34 @@ func TestVerif_C16_Child(t *testing.T) {
 		os.Exit(3)
 	}
 	fmt.Println("OPENED")
+	// A reader beside the writer: while an identifier whose store has been acknowledged is stored again (a peer's copy,
+	// a re-observation), lookups of it keep returning one of the copies stored under it - never "not found".
+	var rmu sync.Mutex
+	acked := map[string]map[string]bool{} // id -> shas stored (or being stored) under it, once the first store was acknowledged
+	var cur atomic.Pointer[vaa.VAAID]
+	go func() {
+		for {
+			id := cur.Load()
+			if id == nil {
+				runtime.Gosched()
+				continue
+			}
+			rb, err := d.GetSignedVAABytes(*id)
+			rmu.Lock()
+			ok := acked[id.ToString()]
+			rmu.Unlock()
+			if cur.Load() != id {
+				continue // the store finished meanwhile: the set of copies may have moved on
+			}
+			if err != nil {
+				fmt.Printf("RBERR -1 %s concurrent-lookup-during-a-second-store:%s\n", id.ToString(), strings.ReplaceAll(err.Error(), "\n", " "))
+				time.Sleep(time.Millisecond)
+			} else if !ok[sha(rb)] {
+				fmt.Printf("RBERR -1 %s concurrent-lookup-returned-sha-%s\n", id.ToString(), sha(rb))
+				time.Sleep(time.Millisecond)
+			}
+		}
+	}()
 	for i := 0; i < n; i++ {
 		b := 0
 		if i == k {
@@ -108,10 +138,23 @@ func TestVerif_C16_Child(t *testing.T) {
 		// a lookup before the store (it may miss) and one right after the acknowledgement, on the same open store
 		_, _ = d.GetSignedVAABytes(*VaaIDFromVAA(v))
 		fmt.Printf("TRY %d %s %s\n", i, id, sha(bs))
-		if err := d.StoreSignedVAA(v); err != nil {
+		rmu.Lock()
+		if acked[id] != nil {
+			acked[id][sha(bs)] = true
+			cur.Store(VaaIDFromVAA(v))
+		}
+		rmu.Unlock()
+		err := d.StoreSignedVAA(v)
+		cur.Store(nil)
+		if err != nil {
 			fmt.Printf("ERR %d %v\n", i, err)
 			continue
 		}
+		rmu.Lock()
+		if acked[id] == nil {
+			acked[id] = map[string]bool{sha(bs): true}
+		}
+		rmu.Unlock()
 		fmt.Printf("ACK %d %s %s\n", i, id, sha(bs))
 		if rb, err := d.GetSignedVAABytes(*VaaIDFromVAA(v)); err != nil {
 			fmt.Printf("RBERR %d %s %v\n", i, id, strings.ReplaceAll(err.Error(), "\n", " "))
@@ -235,6 +278,9 @@ func runC16(c c16Case) (*vh.Violation, vh.Outcome) {
 			return vh.V("C16/store-does-not-reopen", "cycle %d: the child could not reopen the store after the previous kill: %s", ci, openFail), out
 		}
 		if readback != "" {
+			if strings.Contains(readback, "concurrent-lookup") {
+				return vh.V("C16/acknowledged-write-not-readable", "cycle %d: a lookup made while an identifier with an acknowledged VAA was being stored again, on the same open store, returned none of the VAAs stored under it: %s", ci, readback), out
+			}
 			return vh.V("C16/acknowledged-write-not-readable", "cycle %d: a lookup right after the acknowledged store, on the same open store, did not return the stored VAA: %s", ci, readback), out
 		}
 		if acks > 0 && len(pending) > 0 {
